@@ -45,7 +45,7 @@ type Report struct {
 	start         time.Time
 	seen          map[[16]byte]struct{}
 	sigCount      map[string]int
-	checkSigs map[string]int
+	checkSigs     map[string]int
 }
 
 // New starts a report.
